@@ -606,3 +606,43 @@ def rule_init_stores(ctx, clsname, rule="D5"):
             ctx.viol(rule, f, f.node, "constructor option `%s` is not stored unchanged as self.%s: the setting is ignored or altered" % (prm, prm),
                      construct="%s.__init__: option %s" % (clsname, prm))
     return n
+
+
+# ---------------------------------------------------------------------- D1c
+def rule_D1c_complete(ctx, typer, clsname):
+    """no admitted node / admitted link is skipped: every path through the node
+    loop yields its line; every path through the child loop yields the edge
+    unless filter_(child) is false or stop(child) is true"""
+    p = ctx.p
+    n = 0
+    for fname, kind in (("__iter_nodes", "node"), ("__iter_edges", "edge")):
+        f = p.func(clsname, fname)
+        cfg = typer.cfg_of(f)
+        loopins = [x for x in cfg.nodes if x.kind == "loopin"]
+        if kind == "edge":
+            loopins = [x for x in loopins if isinstance(x.ast.iter, ast.Attribute) and x.ast.iter.attr == "children"]
+        else:
+            loopins = [x for x in loopins if isinstance(x.ast.iter, ast.Call) and norm(x.ast.iter.func).endswith("PreOrderIter")]
+        if not loopins:
+            raise AnalysisError("anchor: %s loop in %s.%s not found" % (kind, clsname, fname))
+        for li in loopins:
+            n += 1
+            var = li.ast.target.id if isinstance(li.ast.target, ast.Name) else None
+            heads = [x for x in cfg.nodes if x.kind == "fornext" and x.ast is li.ast]
+            ys = [x for x in cfg.nodes if x.kind == "stmt" and isinstance(x.ast, ast.Expr) and isinstance(x.ast.value, ast.Yield)
+                  and cfg.dominates(li, x)]
+            skip_ok = []
+            if kind == "edge" and var:
+                for g in cfg.nodes:
+                    if g.kind == "guard" and isinstance(g.cond, ast.Call) and len(g.cond.args) == 1 and norm(g.cond.args[0]) == var:
+                        nm = _last_name(g.cond.func)
+                        if (nm == "filter_" and g.outcome is False) or (nm == "stop" and g.outcome is True):
+                            skip_ok.append(g)
+            reach = cfg.reach_from(li, avoid=ys + skip_ok, labels_excluded=("exc",))
+            if any(h.id in reach for h in heads) or cfg.exit.id in reach:
+                ctx.viol("D1c", f, li.ast.target, "some path through the %s loop emits no line although the %s is admitted: an admitted "
+                         "%s is missing from the output" % (kind, kind, "node" if kind == "node" else "link"),
+                         construct="%s.%s: %s skipped on some path" % (clsname, fname, kind))
+            else:
+                ctx.inst("D1c", f, li.ast.target, "every admitted %s yields its line" % kind)
+    return n
